@@ -395,24 +395,24 @@ def c08_multiphase(case):
     P = core.MineralPhase
     problems = []
 
-    def run(asm, fr, which, mob=125.0):
+    def run(asm, fr, which, mob=125.0, regime="matrix_dislocation"):
         ph, fb = ("olivine", "olivine_A") if which == "olivine" else ("enstatite", "enstatite_AB")
-        m = _mineral(ph, fb, "matrix_dislocation", 16, seed=9)
+        m = _mineral(ph, fb, regime, 16, seed=9)
         params = _params(number_of_grains=16, phase_assemblage=asm, phase_fractions=fr, gbm_mobility=mob)
         m.update_orientations(params, np.eye(3), lambda t, x: GENERAL_L, (0.0, 0.3, lambda t: np.zeros(3)))
         return m.orientations[-1], m.fractions[-1]
 
     for which, own in (("olivine", P.olivine), ("enstatite", P.enstatite)):
         other = P.enstatite if which == "olivine" else P.olivine
-        for phi in (0.7, 0.25):
-            single = run((own,), (1.0,), which, mob=125.0 * phi)
-            a = run((own, other), (phi, 1 - phi), which)
-            b = run((other, own), (1 - phi, phi), which)
-            c = run([other, own], [1 - phi, phi], which)
+        for phi, rg in it.product((0.7, 0.25), ("matrix_dislocation", "frictional_yielding")):  # both regimes in which the volume factor acts
+            single = run((own,), (1.0,), which, mob=125.0 * phi, regime=rg)
+            a = run((own, other), (phi, 1 - phi), which, regime=rg)
+            b = run((other, own), (1 - phi, phi), which, regime=rg)
+            c = run([other, own], [1 - phi, phi], which, regime=rg)
             for label, r in (("(own, other)", a), ("(other, own)", b), ("[other, own] lists", c)):
                 err = max(np.abs(r[0] - single[0]).max(), np.abs(r[1] - single[1]).max())
                 if err > 1e-7:
-                    problems.append(f"{which}, phi = {phi}, assemblage {label}: differs from the single-phase run at mobility phi M* by {err:.2e}")
+                    problems.append(f"{which}, {rg}, phi = {phi}, assemblage {label}: differs from the single-phase run at mobility phi M* by {err:.2e}")
     # one parameter dictionary edited in place between runs (fraction sweep)
     shared = _params(number_of_grains=16, phase_assemblage=(P.olivine, P.enstatite), phase_fractions=(0.9, 0.1))
     for phi in (0.9, 0.5, 0.2):
